@@ -150,6 +150,8 @@ class C18(object):
                                "torn": rnd.random() < 0.5}
             if fam in ("cf_text", "cf_hdf") and kind == "load":
                 op["reuse_reader"] = rnd.random() < 0.4   # read into a columnfile object that already read another file
+            if fam == "sparse" and kind in ("save", "resave"):
+                op["overwrite"] = rnd.random() < 0.5   # save into the group that is already there
             if fam == "cf_hdf":
                 op["group"] = rnd.choice(["peaks", "peaks", "g2"])
                 op["variant"] = rnd.choice(["to_hdf", "to_hdf", "obj_to_hdf"])
@@ -169,6 +171,13 @@ class C18(object):
             nt = rnd.randint(1, 6)
             titles = rnd.sample(ALLT, nt)
             nrows = rnd.randint(1, 6)
+            u = rnd.random()
+            if u < 0.05:
+                nrows = rnd.randint(7, 300)
+            elif u < 0.08:
+                # sizes around the block sizes a reader or writer might work in
+                nrows = rnd.choice([1023, 1024, 1025, 4095, 4096, 4097, 5000, 8191, 8192, 8193, 12289])
+                titles = titles[:3]
             cols = [[t, [draw_value(rnd, t) for _ in range(nrows)]] for t in titles]
             pars = self.make_payload("pars", seed + 1)["pars"] if rnd.random() < 0.7 else {}
             return {"cols": cols, "pars": pars}
@@ -207,7 +216,12 @@ class C18(object):
         if fam == "sparse":
             g = np.random.default_rng(seed)
             ns, nf = rnd.randint(1, 12), rnd.randint(1, 12)
-            m = g.random((ns, nf)) < 0.4
+            gm = g
+            if rnd.random() < 0.7:
+                # one of two recurring pixel sets, so that a later save into the same group often has the same length
+                gm = np.random.default_rng(seed % 2)
+                ns, nf = 3 + seed % 2, 5
+            m = gm.random((ns, nf)) < 0.4
             if not m.any():
                 m[0, 0] = True
             r, c = np.nonzero(m)
@@ -370,8 +384,8 @@ class C18(object):
                                                             tuple(payload["shape"]), pixels=px)
                         if payload["meta"]:
                             spf.meta["intensity"] = {"threshold": 3.5}
-                        if os.path.exists(p):
-                            os.remove(p)  # one frame per group, groups are not overwritten (outside the statement)
+                        if os.path.exists(p) and not op.get("overwrite"):
+                            os.remove(p)
                         with self.h5py.File(p, "a") as h:
                             spf.to_hdf_group(h.require_group("frame"))
                 return True, None
@@ -441,7 +455,8 @@ class C18(object):
                     if n not in obj.pixels:
                         return "%s: pixel array %s lost" % (where, n)
                     a = np.array(v, payload["dt"][n])
-                    if obj.pixels[n].dtype != a.dtype or (obj.pixels[n] != a).any():
+                    if (obj.pixels[n].dtype != a.dtype and not self.lenient_dtype) or len(obj.pixels[n]) != len(a) or \
+                            (obj.pixels[n] != a).any():
                         return "%s: pixel array %s differs (dtype %s vs %s)" % (where, n, obj.pixels[n].dtype, a.dtype)
                 return None
 
@@ -461,8 +476,11 @@ class C18(object):
                         # overwrite of an existing group: titles saved earlier and not saved now must not survive
                         pass
                     model[k] = {"ack": payload, "dirty": False}
-                    if fam == "sparse" and st and st["ack"] is not None:
-                        pass
+                    if fam == "sparse":
+                        # saved into a group that already held a frame: the values must come back, the stored type may be
+                        # the (wider) one of the dataset that was there
+                        model[k]["over"] = bool(op.get("overwrite") and st is not None)
+                        counts["sparse_overwrites_ack"] += 1 if model[k]["over"] else 0
                 else:
                     if st is None:
                         model[k] = {"ack": None, "dirty": True}
@@ -470,6 +488,12 @@ class C18(object):
                         # refused saves must leave HDF content as it was; text writers may have destroyed the file
                         if fam in ("cf_text", "pars", "grains_text", "ubi"):
                             st["dirty"] = True
+                        if fam == "sparse" and op.get("overwrite"):
+                            # h5py refuses a dataset of another length or a type that does not fit (TypeError): the caller is
+                            # told, the group's content counts as unacknowledged from here on
+                            st["dirty"] = True
+                            counts["sparse_overwrites_refused"] += 1
+                            continue
                     if not op.get("fault") and fam in ("cf_text", "pars", "grains_text", "ubi", "sparse"):
                         viol = V("save-raises", "step %d: saving a valid object raised %s: %s" % (step, type(err).__name__, err))
                         break
@@ -493,6 +517,7 @@ class C18(object):
                     viol = V("load-raises", "step %d: loading an acknowledged save raised %s: %s" % (step, type(e).__name__, e))
                     break
                 counts["load_checked"] += 1
+                self.lenient_dtype = bool(st.get("over"))
                 e = compare(st["ack"], obj, "step %d (%s slot %s)" % (step, op["op"], k))
                 if e:
                     viol = V("readback-differs", e)
